@@ -712,6 +712,14 @@ def judge_b(ctx, deps, case):
     for nm, ds in deps.items():
         cls = type("R_" + nm, (ProjectRepo,), {'_COMPONENTS_VERSIONS_LOCATIONS': {d: 'DEPENDS' for d in ds}})
         repos[nm] = cls(nm, FakeGit(), 'origin')
+    skipped = [nm for nm in case.get("skipped") or [] if nm in repos]
+    for nm in skipped:
+        # (only the place of the repository is supplied for this id and no class is registered for it: the entry is
+        # left out, as documented - whoever names it as a component simply has one component less)
+        repos[nm] = FakeGit()
+    if skipped:
+        ctx.count("collections_with_an_entry_that_is_left_out")
+        deps = {nm: [d for d in ds if d not in skipped] for nm, ds in deps.items() if nm not in skipped}
     cyc = has_cycle(deps)
     budget = LineBudget(STEP_BOUND)
     collection_cls = ReposCollection
@@ -785,7 +793,8 @@ def run_shard(ctx):
         if i % 3 == 2:
             deps = gen_deps(rng)
             registry = [nm for nm in deps if rng.random() < 0.6] if rng.random() < 0.3 else []
-            judge_b(ctx, deps, {"kind": "deps", "deps": deps, "registry": registry})
+            skipped = [nm for nm in deps if nm not in registry and rng.random() < 0.35] if registry else []
+            judge_b(ctx, deps, {"kind": "deps", "deps": deps, "registry": registry, "skipped": skipped})
             continue
         # minutes between commits, or hours / days (commit times stay consistent between the repositories)
         step = 60 if rng.random() < 0.6 else rng.choice([7 * 3600, 2 * 86400])
